@@ -12,12 +12,12 @@ VN = "real dbft instances in a deterministic virtual-time cluster (harness/vnet)
 checks = {
  'C01': dict(engine='vnet', technique='runtime monitoring: offline agreement checker over ProcessBlock events of honest nodes in hostile virtual-time cluster runs (Byzantine/equivocating/replaying adversaries, loss, duplication, early timeouts)',
    text=VN+'oracle compares the blocks accepted by all honest never-restarted nodes per height; forks are attributed through re-validated acceptance certificates. Held on the runs executed, nothing more; the known fork (early unverified commits) is reported as KNOWN-FINDING.',
-   note='assumes an authenticated transport (adversaries cannot forge honest payloads/signatures; harness MAC signatures), <=F faulty validators, harness payload/block implementations; explores N<=10, 2-4 heights', ref='4.1, 5.1'),
+   note='assumes an authenticated transport (adversaries cannot forge honest payloads/signatures; harness MAC signatures), <=F faulty validators, harness payload/block implementations; explores N<=10 (16 in a share of the thorough runs), 2-4 (up to 8) heights; faults: Byzantine validators, hostile scheduling, amnesia restarts of up to F validators', ref='4.1, 5.1'),
  'C02': dict(engine='vnet', technique='runtime monitoring: online certificate re-validation inside every ProcessBlock/ProcessPreBlock callback (M verifying current-view (pre)commits, tip extension, block == proposal)',
    text=VN+'at every acceptance the monitor re-verifies every counted commit/pre-commit signature against exactly the handed-over block, checks index/prev hash against the ledger and rebuilds the block from the stored proposal.',
    note='same assumptions as C01; known finding early-unverified-(pre)commit is listed in KNOWN_FINDINGS.txt', ref='4.2, 5.1'),
  'C03': dict(engine='vnet', technique='runtime monitoring: offline checker over each honest node\'s Broadcast history (equivocation, commit lock, recovery-message retransmissions, view monotonicity)',
-   text=VN+'oracle over the complete outgoing message history and view entries of every honest node.', note='nodes are excluded from their first amnesia restart on; authenticated transport', ref='4.3'),
+   text=VN+'oracle over the complete outgoing message history and view entries of every honest node.', note='every incarnation of a restarted node is judged on its own (what it said before the restart is forgotten, what comes back to it from the peers counts as said); authenticated transport', ref='4.3'),
  'C04': dict(engine='vnet', technique='runtime monitoring: online precondition evaluation at every PrepareResponse/Commit/PreCommit send and every view entry against the node\'s exported tables',
    text=VN+'preconditions (designated primary, all transactions held, verification accepted that block, M preparations naming the proposal, M change views) are evaluated on the live Context at the instant of the send / view entry.', note='authenticated transport; <=F faulty', ref='4.4'),
  'C07': dict(engine='vnet', technique='runtime monitoring: online phase-order automaton per node and height (pre-commit -> pre-block -> commit -> block) over callback events',
@@ -35,7 +35,7 @@ checks = {
  'C06': dict(engine='c06', technique='runtime monitoring with an exhaustive workload: N/F/M/GetPrimaryIndex of the real Context evaluated for every N in 1..65535 x every view 0..255 x listed heights against integer arithmetic',
    text='exhaustive enumeration of N x view at the listed heights (incl. 32-bit boundaries); per-N height windows for N<=512; 1% sample and N<=64 re-initialised through real Reset.', note='BlockIndex is moved directly between heights for most N', ref='4.6'),
  'C09': dict(engine='vnet', technique='runtime monitoring: bounded-progress checker in virtual time over runs with silent validators, healed partitions and amnesia restarts',
-   text=VN+'liveness restated as bounded progress: after the last fault event every live validator gains each height within 16*2^(v0+s)*TimePerBlock of virtual time; views <= s for silent-from-start runs; agreement checked on the same runs.', note='bounded restatement of an unbounded eventually; synchronous delivery after GST; known liveness lock (amnesiac primary) listed in KNOWN_FINDINGS.txt', ref='4.9, 5.12'),
+   text=VN+'liveness restated as bounded progress: after the last fault event every live validator gains each height within 16*2^(v0+s)*T of virtual time (T = block time, or the maximum block time where dynamic block time is configured); views <= s for silent-from-start runs; agreement checked on the same runs.', note='bounded restatement of an unbounded eventually; synchronous delivery after GST; known liveness lock (amnesiac primary) listed in KNOWN_FINDINGS.txt', ref='4.9, 5.12'),
  'C11': dict(engine='vnet', technique='runtime monitoring: whole-state fingerprint comparison around injected inadmissible/duplicate inputs in reachable states, plus an API-sequence fuzzer in child processes as panic trap',
    text=VN+'probes of every inadmissible class are injected into states reached by real runs and judged by fingerprint/timer/broadcast comparison; 40k (quick) generated API sequences with arbitrary payloads and callback results run in child processes that record the case before executing it.', note='fingerprint covers unexported state through the verif hooks; one recorded finding (latent change-view quorum)', ref='4.11, 5.11'),
  'C12': dict(engine='vnet', technique='runtime monitoring: online obligation tracker RequestTx -> OnTransaction -> PrepareResponse/ChangeView',
